@@ -14,7 +14,8 @@ CHECKS = {
         'text': 'Condition-variable discipline on both queue classes, on every path of every instantiation: predicate-form waits '
                 'under queueListMutex; the wait predicate formula is equivalent to what the property states (truth table over its atoms); '
                 'every write that can enable the predicate is made under the waiters\' mutex and followed by notify (a re-test may skip the notify only on state read after the write); '
-                'DisableQueueNotify ctor/dtor balanced, increment/decrement only, and sole writers; every queue constructor starts queueNotifyCounter at a constant zero; the silent put-back of processIf/processUntil lies inside an in-dispatch guard entered before the take, and that counter (read by the wait predicate) is written only by its RAII guard. A violation of any clause yields a schedule with a lost wake-up.',
+                'DisableQueueNotify ctor/dtor balanced, increment/decrement only, and sole writers; every queue constructor starts queueNotifyCounter at a constant zero; the silent put-back of processIf/processUntil lies inside an in-dispatch guard entered before the take, and that counter (read by the wait predicate) is written only by its RAII guard. A violation of any clause yields a schedule with a lost wake-up.'
+            ' Derived emptiness state (W9): any member the wait predicate reads besides the list and the guard counters is written in every critical section that changes queueList, and not from a list emptied just before.',
         'note': COMMON_NOTE + 'Not decided: liveness under fair scheduling, notify_one vs many waiters, timing of waitFor.',
         'technique': 'lockset + dominance over clang CFG, predicate formula extraction with truth-table implication, call-graph notify-after rule',
     },
@@ -32,7 +33,8 @@ CHECKS['C06'] = {
 CHECKS['C11'] = {
     'text': 'emptyQueue() formula and evaluation order (list before counter), CounterGuard entered before every take that is followed by '
             'user code and held over dispatch and put-back (also a put-back made by the destructor of a local helper object), CounterGuard balanced and sole writer of queueEmptyCounter, '
-            'time-out implication (!pred && enabled => empty) by truth table over the extracted predicate; both guard counters start at a constant zero in every queue constructor.',
+            'time-out implication (!pred && enabled => empty) by truth table over the extracted predicate; both guard counters start at a constant zero in every queue constructor.'
+            ' Derived emptiness state (O6): any member emptyQueue() reads besides the list and the guard counters is written in every critical section that changes queueList, and not from a list emptied just before.',
     'note': COMMON_NOTE + 'Not decided: the weak-memory argument (seq_cst RMW + acquire load) that makes the ordering sufficient.',
     'technique': 'formula extraction + truth table, dominance/must-hold of scope guards over clang CFG, who-may-write rule',
 }
@@ -164,7 +166,8 @@ CHECKS['C08'] = {
     'text': 'Slot EMPTY/FULL protocol by abstract interpretation over all processing functions (every clear on a FULL slot exactly once, no set on FULL, only '
             'EMPTY slots recycled), slot destructor/clear/empty/set shapes and commonDtor<T> type identity, owner types not copyable (class facts), node-cycle '
             'breaking: destructor and move assignment run doFreeAllNodes first, doFreeAllNodes walks from head cutting links on every node, copy constructor '
-            'delegates; raw ownership of LargeData (single new, matching deleter, delete iff owned, move leaves source empty) and AnyData (free iff table, move via table); inside the ordered queue list a slot is read (get) only where it is established non-empty.',
+            'delegates; raw ownership of LargeData (single new, matching deleter, delete iff owned, move leaves source empty) and AnyData (free iff table, move via table); inside the ordered queue list a slot is read (get) only where it is established non-empty.'
+            ' Every instantiated slot class has a user-written destructor (a defaulted one destroys nothing).',
     'note': COMMON_NOTE + 'Not decided: leaks through user types; when exactly removed callbacks are released beyond the ownership shape.',
     'technique': 'typestate abstract interpretation (slots), dominance/post-dominance, loop-idiom recognition, class special-member facts',
 }
@@ -173,7 +176,8 @@ CHECKS['C10'] = {
             'and move construction cover every state field of the list / dispatchers / heterogeneous list; dispatcher copy assignment replaces the whole map; '
             'cloneFrom links only freshly made nodes built from the source callback and one generation drawn through getNextCounter before the loop and does not '
             'touch currentCounter; heterogeneous copy stores only doClone() results; self copy-assignment guarded; queue copies default-construct their event lists; '
-            'static_assert witnesses for copyability / noexcept moves and swaps.',
+            'static_assert witnesses for copyability / noexcept moves and swaps.'
+            ' swap exchanges or resets every further data member that is not a synchronisation primitive (caches, counts, flags next to the listed state).',
     'note': COMMON_NOTE + 'Not decided: behavioural equivalence of the result with a freshly built object beyond state initialisation and C02.',
     'technique': 'R-INIT in the extractor, field-completeness tables, taint/def-use over cloneFrom, static_assert witnesses',
 }
